@@ -1368,3 +1368,71 @@ add('C02', 'twin', 'tail-flush-len', [(P, '''    if curr_line_parts:
 
 
 @register_pretty(str)''')])
+
+# ----------------------------------------------------------------------------- C03
+add('C03', 'breaker', 'nest-indent-plus-one', [(P, '''        nest(ctx.indent, concat([SOFTLINE, child])),''', '''        nest(ctx.indent + 1, concat([SOFTLINE, child])),''')], 'C03.c')
+add('C03', 'breaker', 'nest-literal-four', [(P, '''            nest(
+                ctx.indent,
+                concat([
+                    SOFTLINE,
+                    concat(parts),
+                ])
+            ),''', '''            nest(
+                4,
+                concat([
+                    SOFTLINE,
+                    concat(parts),
+                ])
+            ),''')], 'C03.c')
+add('C03', 'breaker', 'width-leaks-into-text', [(P, '''        if singleline_str_chars <= available_width:
+            if is_native_type:
+                return flat_version''', '''        if singleline_str_chars <= available_width:
+            if is_native_type:
+                return concat([flat_version, ' ' * (page_width % 2)])''')], 'C03.a')
+add('C03', 'breaker', 'broken-variant-drops-comma', [(P, '''                                COMMA if not last else NIL,
+                            ])
+                        ),
+                        HARDLINE if not last else NIL''', '''                                NIL,
+                            ])
+                        ),
+                        HARDLINE if not last else NIL''')], 'C03.b')
+add('C03', 'breaker', 'flat-variant-different-element', [(P, '''            flat_version = concat([
+                doc,
+                COMMA if needs_comma else NIL,''', '''            flat_version = concat([
+                doc.doc,
+                doc.doc,
+                COMMA if needs_comma else NIL,''')], 'C03.b')
+add('C03', 'breaker', 'hang-strategy-drops-piece', [(P, '''        elif multiline_strategy == MULTILINE_STRATEGY_HANG:
+            return always_break(
+                nest(
+                    prettyprinter_indent,
+                    concat(parts)
+                )
+            )''', '''        elif multiline_strategy == MULTILINE_STRATEGY_HANG:
+            parts = list(parts)
+            return always_break(
+                nest(
+                    prettyprinter_indent,
+                    concat(parts[:-3] + parts[-1:])
+                )
+            )''')], 'C03.b')
+add('C03', 'breaker', 'indented-strategy-adds-parens', [(P, "                left_paren, right_paren = '', ''", "                left_paren, right_paren = LPAREN, ''")], 'C03.b')
+add('C03', 'breaker', 'printer-uses-align', [(P, '''def bracket(ctx, left, child, right):
+    return concat([
+        left,
+        nest(ctx.indent, concat([SOFTLINE, child])),''', '''def bracket(ctx, left, child, right):
+    from .doc import align
+    return concat([
+        left,
+        align(concat([SOFTLINE, child])),''')], 'C03.c')
+add('C06', 'breaker', 'indent-decides-forced-break', [(P, '''    if len(pairs) > 2 or has_comment:
+        doc = always_break(doc)''', '''    if len(pairs) > 2 or has_comment or ctx.indent > 6:
+        doc = always_break(doc)''')])
+add('C03', 'twin', 'indent-alias', [(P, '''def bracket(ctx, left, child, right):
+    return concat([
+        left,
+        nest(ctx.indent, concat([SOFTLINE, child])),''', '''def bracket(ctx, left, child, right):
+    step = ctx.indent
+    return concat([
+        left,
+        nest(step, concat([SOFTLINE, child])),''')])
